@@ -66,7 +66,7 @@ def required_cells(tier):
         cells.append("inc:" + i)
     cells += ["wd:root", "wd:build-inside", "wd:build-outside", "skip:missing/first", "skip:missing/middle", "skip:missing/last",
               "skip:object", "skip:link", "skip:empty-command", "skip:empty-arguments", "skip:blank-command", "relative-I-missing-in-build-dir", "unnamed-file-unattributed",
-              "gcc-confirmed", "class:grid", "class:random", "same-spelling-different-build-dirs", "forced-include:rel",
+              "gcc-confirmed", "class:grid", "class:random", "same-spelling-different-build-dirs", "same-file-spelling-missing-in-one-directory", "forced-include:rel",
               "forced-include:abs", "forced-include:dots", "search-dir-with-blank:command", "search-dir-with-blank:arguments",
               "header-compiled-on-its-own", "compiled-files-excluded-by-pattern", "skip:missing-long-name", "skip:missing-below-a-file",
               "skip:non-source:hip", "skip:non-source:md", "dependency-generation-options",
@@ -419,6 +419,19 @@ def run_shard(ctx):
                 ms.reverse()
             ctx.acc.cells["same-spelling-different-build-dirs"] += 1
             check_db(ctx, base, root, es, ms, [], "grid")
+    # one `file` spelling in two build directories: missing in the first (generated later), present in the second.
+    # The warning about the first must not cost the second its place in the configuration (either order, twice each).
+    for order in (0, 1, 2):
+        idx += 1
+        if not ctx.mine(idx):
+            continue
+        e1, m1 = make_entry(root, base, "src/a.c", "root", ["abs", "rel", "dots"][order], "rel", "rel")
+        gone = {"file": e1["file"], "directory": os.path.join(root, "build"), "arguments": ["gcc", "-c", e1["file"]]}
+        e2, m2 = make_entry(root, base, "src/a.c", "root", "abs", "rel", "abs", defines=["PRE"])
+        es, ms, sk = [[gone, e1, e2], [e1, gone, e2], [gone, dict(gone), e1]][order], [[None, m1, m2], [m1, None, m2], [None, None, m1]][order], \
+            [[("missing", "first")], [("missing", "middle")], [("missing", "first"), ("missing", "middle")]][order]
+        ctx.acc.cells["same-file-spelling-missing-in-one-directory"] += 1
+        check_db(ctx, base, root, es, ms, sk, "grid")
     # a relative -I that does not exist in the build directory although a directory of that name exists in the root:
     # the compiler would search build/<name> (nothing there), never root/<name>
     for wd_kind in ("build-inside", "build-deep", "build-outside"):
